@@ -1,3 +1,4 @@
+import jax
 import jax.numpy as jnp
 from jax import Array
 from jax.ops import segment_max
@@ -57,6 +58,11 @@ def argmax(
     # ----------------------------------------------------------------------------------
     # Note: If multiple maxima exist, this approach will select the first index.
     # ==================================================================================
+    # The comparison below is exact only if it sees the very numbers the maximum was
+    # taken over. Inside jit, XLA may otherwise fuse (re-compute) the producer of a
+    # separately into the reduction and into the comparison, with results that differ
+    # in the last bit; then no element equals the maximum and index 0 is returned.
+    a = jax.lax.optimization_barrier(a)
     _max = jnp.max(a, axis=-1, keepdims=True, initial=initial, where=where)
     max_value_mask = a == _max
     if where is not None:
